@@ -3,12 +3,15 @@ import concurrent.futures as cf
 import hashlib, json, os, re, shutil, subprocess, sys, time
 
 VERIF = "/verif"
-WORK = os.path.join(VERIF, "work")
+# an isolated evaluation (tools/isolated.py) redirects the scratch, harness and evidence directories
+WORK = os.environ.get("VERIF_WORK", os.path.join(VERIF, "work"))
+HARNESS = os.environ.get("VERIF_HARNESS", os.path.join(VERIF, "harness"))
+EVIDENCE = os.environ.get("VERIF_EVIDENCE", os.path.join(VERIF, "evidence"))
 SPECS = os.path.join(VERIF, "specs")
 JAR = "/opt/veriftools/tla/tla2tools.jar:/opt/veriftools/tla/CommunityModules-deps.jar"
 LIBPATH = ":".join(os.path.join(SPECS, d) for d in ("mech", "judge", "fn", "trace", "mc"))
-D1 = os.path.join(VERIF, "harness/d1/target/release/d1")
-D2 = os.path.join(VERIF, "harness/d2/target/release/d2")
+D1 = os.path.join(HARNESS, "d1/target/release/d1")
+D2 = os.path.join(HARNESS, "d2/target/release/d2")
 
 class ToolError(Exception):
     pass
@@ -26,7 +29,7 @@ def sh(cmd, cwd=None, timeout=None, env=None):
 def build(which=("d1",)):
     """rebuild the drivers from /repo's current working tree"""
     for w in which:
-        d = os.path.join(VERIF, "harness", w)
+        d = os.path.join(HARNESS, w)
         t0 = time.time()
         rc, out = sh(["cargo", "build", "--release", "--offline"], cwd=d, timeout=1200,
                      env={"CARGO_NET_OFFLINE": "true"})
@@ -100,7 +103,8 @@ def run_driver_shard(args):
         op = out_path if part == 0 else "%s.p%d" % (out_path, part)
         cmd = [binp, "run", "--scenarios", scen_path, "--out", op, "--skip", str(skip)] + extra
         try:
-            p = subprocess.run(cmd, stdout=subprocess.PIPE, stderr=subprocess.PIPE, text=True, timeout=3600)
+            p = subprocess.run(cmd, stdout=subprocess.PIPE, stderr=subprocess.PIPE, text=True, timeout=3600,
+                               env=dict(os.environ, VERIF_SOCK_DIR=os.path.join(WORK, "sock")))
         except subprocess.TimeoutExpired:
             return outs, "timeout"
         outs.append(op)
@@ -288,8 +292,8 @@ def match_finding(v, scenario, findings):
     return None
 
 def write_evidence(prop, tier, seed, level, coverage, wall, violations, assumptions):
-    os.makedirs(os.path.join(VERIF, "evidence"), exist_ok=True)
+    os.makedirs(EVIDENCE, exist_ok=True)
     ev = {"property_id": prop, "tier": tier, "seed": seed, "level": level, "coverage": coverage,
           "assumptions": assumptions, "wall_s": round(wall, 1), "violations": violations}
-    with open(os.path.join(VERIF, "evidence", prop + ".json"), "w") as f:
+    with open(os.path.join(EVIDENCE, prop + ".json"), "w") as f:
         json.dump(ev, f, indent=1)
